@@ -148,20 +148,26 @@ static void run_op(Ctx &c, const std::string &op, bool pre, const std::string &i
     }
     std::vector<GM> g(o.m.size());
     Kind worst = EXACT;
-    std::string shown;
     for (size_t i = 0; i < o.m.size(); i++) {
         Kind k = read_dense(o.m[i], o.shape[i].first, o.shape[i].second, g[i]);
         if (k > worst)
             worst = k;
-        shown += (i ? ", " : "") + dstr(o.m[i]);
     }
+    auto shown_of = [&]() { // printing is expensive: only for reports
+        std::string shown;
+        for (size_t i = 0; i < o.m.size() && i < 6; i++)
+            shown += (i ? ", " : "") + dstr(o.m[i]);
+        if (o.m.size() > 6)
+            shown += ", ... (" + std::to_string(o.m.size()) + " results)";
+        return shown;
+    };
     if (worst == BADSHAPE || worst == NULLENTRY) {
-        c.violation(op + ":" + KINDN[worst], op + " on " + in + " returned " + shown);
+        c.violation(op + ":" + KINDN[worst], op + " on " + in + " returned " + shown_of());
         return;
     }
     if (worst != EXACT) {
         if (pre)
-            c.violation(op + ":" + KINDN[worst] + "-result-on-valid-input", op + " on " + in + " returned " + shown);
+            c.violation(op + ":" + KINDN[worst] + "-result-on-valid-input", op + " on " + in + " returned " + shown_of());
         else {
             c.count(K_SKIP_NONFINITE);
             c.outcome(op + ":" + KINDN[worst] + "(precondition unmet)");
@@ -175,7 +181,14 @@ static void run_op(Ctx &c, const std::string &op, bool pre, const std::string &i
         c.outcome(op + (pre ? ":ok" : ":ok(precondition unmet)"));
         return;
     }
-    c.violation(op + (pre ? ":wrong" : ":wrong(precondition-not-met,finite-result)"), op + " on " + in + " returned " + shown + ": " + bad);
+    c.violation(op + (pre ? ":wrong" : ":wrong(precondition-not-met,finite-result)"), op + " on " + in + " returned " + shown_of() + ": " + bad);
+}
+
+static void timed_run(CaseSet &cs)
+{
+    double t = now();
+    run_cases(cs);
+    run().counters["ms:" + cs.name] = (uint64_t)((now() - t) * 1000);
 }
 
 #include "C24_ops.inc"
@@ -200,15 +213,16 @@ int main(int argc, char **argv)
     if (!thorough) {
         sets.push_back({3, 3, A2, FULL, ALL});
         sets.push_back({3, 3, A012, SYMMETRIC, ALL});
-        sets.push_back({4, 4, A2, FULL, CORE});
+        sets.push_back({4, 4, A2, ZERODIAG, CORE});
     } else {
         sets.push_back({3, 3, A3, FULL, ALL});
         sets.push_back({3, 3, A4, SYMMETRIC, ALL});
         sets.push_back({3, 3, {L0, L1, LI}, SYMMETRIC, ALL});
         sets.push_back({3, 4, A2, FULL, ALL});
         sets.push_back({4, 3, A2, FULL, ALL});
-        sets.push_back({4, 4, A2, FULL, ALL});
-        sets.push_back({4, 4, A3, ZERODIAG, CORE});
+        sets.push_back({4, 4, A2, ZERODIAG, ALL});
+        sets.push_back({4, 4, A2, FULL, CORE});
+        sets.push_back({4, 4, A3, SYMMETRIC, CORE});
     }
     long long total = 0;
     for (auto &s : sets) {
@@ -242,7 +256,7 @@ int main(int argc, char **argv)
     cs.name = "matrix";
     cs.n = total;
     cs.counter_names = cn;
-    cs.hang_s = 60;
+    cs.hang_s = 300;
     cs.desc = [&](long long i) {
         long long l;
         const MSet &s = locate(i, l);
@@ -262,10 +276,12 @@ int main(int argc, char **argv)
             c.sample("{\"matrix\":" + jstr(gstr(a)) + ",\"det\":" + (a.r == a.c ? jstr(gq_str(g_det(a))) : std::string("null")) + ",\"rank\":"
                      + std::to_string(g_rank(a)) + "}");
     };
-    run_cases(cs);
+    timed_run(cs);
 
     // ---- singular / wide inputs of the algorithms that have no guard (kept small: every failure is a process crash)
-    std::vector<MSet> sing = {{2, 2, A3, FULL, ALL, true}, {3, 3, A2, SYMMETRIC, ALL, true}, {1, 2, A012, FULL, ALL}, {2, 3, A2, ZERODIAG, ALL}};
+    std::vector<MSet> sing = {{2, 2, A2, FULL, ALL, true}, {1, 2, A012, FULL, ALL}};
+    if (thorough)
+        sing = {{2, 2, A3, FULL, ALL, true}, {3, 3, A2, SYMMETRIC, ALL, true}, {1, 2, A012, FULL, ALL}, {2, 3, A2, ZERODIAG, ALL}};
     long long stotal = 0;
     for (auto &s : sing) {
         s.base = stotal;
@@ -284,7 +300,7 @@ int main(int argc, char **argv)
     ss.name = "unguarded";
     ss.n = stotal * 3;
     ss.counter_names = cn;
-    ss.hang_s = 60;
+    ss.hang_s = 300;
     static const char *UG[3] = {"inverse_gauss_jordan", "fraction_free_gauss_jordan_solve(pivot)", "fraction_free_gauss_jordan_elimination"};
     ss.desc = [&](long long i) {
         long long l;
@@ -302,12 +318,12 @@ int main(int argc, char **argv)
         quiet_stderr_once();
         unguarded_op(c, s.decode(l), i % 3);
     };
-    run_cases(ss);
+    timed_run(ss);
 
     // ---- pairs: sums, products, element-wise products
-    std::vector<PSet> ps = {{2, 2, 2, A5}, {2, 3, 2, A2}, {1, 3, 1, A3}, {3, 1, 3, A3}};
+    std::vector<PSet> ps = {{2, 2, 2, A3}, {2, 3, 2, A2}, {1, 3, 1, A3}, {3, 1, 3, A3}};
     if (thorough)
-        ps = {{2, 2, 2, A5}, {2, 2, 2, AC}, {2, 3, 2, A3}, {3, 2, 3, A2}, {1, 3, 1, A3}, {3, 1, 3, A3}, {3, 3, 3, A2}};
+        ps = {{2, 2, 2, A4}, {2, 2, 2, AC}, {2, 3, 2, A2}, {3, 2, 3, A2}, {1, 3, 1, A3}, {3, 1, 3, A3}, {3, 3, 1, A2}};
     long long ptotal = 0;
     for (auto &p : ps) {
         p.base = ptotal;
@@ -326,6 +342,7 @@ int main(int argc, char **argv)
     pc.name = "pairs";
     pc.n = ptotal;
     pc.counter_names = cn;
+    pc.hang_s = 300;
     pc.desc = [&](long long i) {
         long long l;
         const PSet &p = plocate(i, l);
@@ -343,7 +360,7 @@ int main(int argc, char **argv)
         if (i % 50021 == 4)
             c.sample("{\"A\":" + jstr(gstr(a)) + ",\"B\":" + jstr(gstr(b)) + "}");
     };
-    run_cases(pc);
+    timed_run(pc);
 
     Run &R = run();
     R.states = total + stotal + ptotal;
